@@ -27,7 +27,8 @@ pub struct Ctx<'a> {
 impl Ctx<'_> {
     /// number of draws for this shard given totals for the two tiers
     pub fn draws(&self, quick_total: usize, thorough_total: usize) -> usize {
-        let t = if self.tier == Tier::Quick { quick_total } else { thorough_total };
+        // quick totals are written for a ~3 s run; the quick tier is run 5x deeper than that
+        let t = if self.tier == Tier::Quick { quick_total * 5 } else { thorough_total * 2 };
         (((t as f64) * self.scale) as usize / self.nshards).max(1)
     }
     pub fn rng(&self, stream: u64) -> Rng {
@@ -882,8 +883,11 @@ pub fn c15(ctx: &Ctx, st: &mut Stats) {
         let ex_a = exec(&a);
         st.observe_exec(&ex_a);
         st.count("prefixes_tried", 1);
-        if !compose::is_closed(&a, &ex_a) {
+        if !compose::is_closed(&a, &ex_a, a_src == "grammar-boundary") {
             continue;
+        }
+        if a_src == "grammar-boundary" && ex_a.report.end_of_input.as_ref().is_some_and(|e| !e.is_initial()) {
+            st.count("generated_prefixes_with_residual_state", 1);
         }
         st.count(&format!("closed_prefixes_{a_src}"), 1);
         let Some(ra) = ex_a.result() else { continue };
